@@ -134,7 +134,10 @@ Section TakeInv.
     auto; try congruence; try lia; try (constructor; fail); try tauto;
     try (repeat split; eauto with tk; fail);
     try (repeat split; auto; left; split; [lia | eauto with tk]; fail);
-    try (repeat split; auto; right; split; [lia | eauto 6 with tk]; fail).
+    try (repeat split; auto; right; split; [lia | eauto 6 with tk]; fail);
+    try (match goal with
+         | |- context [(?s <=? 0)] => destruct s; cbn; auto; congruence
+         end).
 
   Ltac fin' Hc Hm Hs Hd :=
     constructor; rewrite ?Hc, ?Hm, ?Hs, ?Hd; cbn; rewrite ?add_viols_eq; cbn;
@@ -290,15 +293,15 @@ Section TakeInv.
     - (* not subscribed *)
       destruct Hph as (Ht0 & Hlow). rewrite Hst in Hlow. apply low_inv in Hlow.
       destruct Hlow as [Hk Hlow].
-      apply (inv_ret_quiet HI Hst (resume_low _ Hk)). rewrite Esk, Eus. cbn. auto.
+      apply (inv_ret_quiet HI Hst (@resume_low k cl (cst c) Hk)). rewrite Esk, Eus. cbn. auto.
     - (* subscribed, not greeted *)
       destruct Hph as (Ht0 & Hend & Hlow). rewrite Hst in Hlow. apply low_inv in Hlow.
       destruct Hlow as [Hk Hlow].
-      apply (inv_ret_quiet HI Hst (resume_low _ Hk)). rewrite Esk, Eus. cbn. auto.
+      apply (inv_ret_quiet HI Hst (@resume_low k cl (cst c) Hk)). rewrite Esk, Eus. cbn. auto.
     - (* live *)
       destruct Hph as (Htb & Hend & [[Hlt Hlow] | [Heq (v & rest' & Hst' & Hlow)]]).
       + rewrite Hst in Hlow. apply low_inv in Hlow. destruct Hlow as [Hk Hlow].
-        apply (inv_ret_quiet HI Hst (resume_low _ Hk)). rewrite Esk, Eus. cbn. auto.
+        apply (inv_ret_quiet HI Hst (@resume_low k cl (cst c) Hk)). rewrite Esk, Eus. cbn. auto.
       + (* the nth delivery returns and the sink did not dispose: stop upstream *)
         rewrite Hst in Hst'. injection Hst' as -> -> ->.
         assert (Hres : resume o (TkAfterData max) (cst c) =
@@ -317,14 +320,14 @@ Section TakeInv.
     - (* disposed *)
       destruct Hph as (Hend & Hns'). rewrite Hst in Hns'. apply nostop_inv in Hns'.
       destruct Hns' as [Hk Hns'].
-      apply (inv_ret_quiet HI Hst (resume_nostop _ _ Hk Hend)). rewrite Esk, Eus. cbn. auto.
+      apply (inv_ret_quiet HI Hst (@resume_nostop k cl (cst c) Hk Hend)). rewrite Esk, Eus. cbn. auto.
     - (* upstream ended *)
       rewrite Hst in Hph. apply low_inv in Hph. destruct Hph as [Hk Hlow].
-      apply (inv_ret_quiet HI Hst (resume_low _ Hk)). rewrite Esk, Eus. cbn. auto.
+      apply (inv_ret_quiet HI Hst (@resume_low k cl (cst c) Hk)). rewrite Esk, Eus. cbn. auto.
     - (* completed *)
       destruct Hph as (Hend & Hns'). rewrite Hst in Hns'. apply nostop_inv in Hns'.
       destruct Hns' as [Hk Hns'].
-      apply (inv_ret_quiet HI Hst (resume_nostop _ _ Hk Hend)). rewrite Esk, Eus. cbn. auto.
+      apply (inv_ret_quiet HI Hst (@resume_nostop k cl (cst c) Hk Hend)). rewrite Esk, Eus. cbn. auto.
   Qed.
 
   Lemma inv_step c m : Inv c -> enabled p g_std c m = true -> Inv (step p c m).
@@ -342,4 +345,151 @@ Section TakeInv.
   Theorem inv_reach c : reach p g_std c -> Inv c.
   Proof. induction 1; [apply inv0 | now apply inv_step]. Qed.
 
+  (** ** The trace part: what went in and what came out *)
+  Record TInv (c : cfg o) : Prop := {
+    t_len : tk_taken (cst c) = Nat.min max (length (data_in 0 (trace c)));
+    t_out : data_out 0 (trace c) = firstn max (data_in 0 (trace c));
+  }.
+
+  Lemma tinv_keep (c c' : cfg o) evs :
+    TInv c -> trace c' = trace c ++ evs -> data_in 0 evs = [] -> data_out 0 evs = [] ->
+    tk_taken (cst c') = tk_taken (cst c) -> TInv c'.
+  Proof.
+    intros [] Ht Hi Ho Hc.
+    constructor; rewrite Ht, ?data_out_app, data_in_app, Hi, ?Ho, !app_nil_r; congruence.
+  Qed.
+
+  Ltac inj Hh s' os a := injection Hh as ? ? ?; subst s' os a.
+  Ltac keep IH Htr Hc :=
+    eapply tinv_keep; [exact IH | exact Htr | reflexivity | reflexivity | rewrite Hc; reflexivity].
+  Ltac split_ifs Hh :=
+    repeat match type of Hh with
+           | context [if ?b then _ else _] => destruct b
+           end.
+
+  Theorem tinv_reach c : reach p g_std c -> TInv c.
+  Proof.
+    induction 1 as [|c m Hr IH He].
+    { constructor; cbn; [now rewrite Nat.min_0_r | now rewrite firstn_nil]. }
+    pose proof (inv_reach Hr) as HI.
+    pose proof (enabled_live _ _ _ _ He) as Hlive.
+    destruct m as [inp|].
+    - pose proof (enabled_deliverable _ _ _ _ He) as Hdel.
+      destruct (handle o inp (cst c)) as [[s' os] a] eqn:Hh.
+      pose proof (step_in_trace p c inp Hlive Hdel Hh) as Htr.
+      destruct (step_in p c inp Hlive Hdel Hh) as (Hc & _).
+      destruct inp as [[|s] aux|[|s] u|[|i] d|s].
+      + (* the subscription: nothing was received before *)
+        cbn in Hh. inj Hh s' os a.
+        start_in He Hlive' Hdel' Hg. cbn in He.
+        apply andb_prop in He. destruct He as [_ He]. apply negb_true_iff in He.
+        destruct HI. specialize (i_subd0 He).
+        rewrite i_subd0 in i_phase0. destruct (sk (ms c) 0); cbn in i_phase0; try tauto.
+        destruct i_phase0 as [Ht0 _]. destruct IH as [Hlen Hout].
+        assert (Hnil : data_in 0 (trace c) = []).
+        { rewrite Ht0 in Hlen. destruct (data_in 0 (trace c)); [reflexivity|]. cbn in Hlen. lia. }
+        constructor; rewrite Htr, ?data_out_app, data_in_app, ?Hc; cbn;
+          rewrite ?app_nil_r, ?Hnil; cbn; [lia | now rewrite Hout, Hnil].
+      + cbn in Hh. inj Hh s' os a. keep IH Htr Hc.
+      + destruct u; cbn -[Nat.ltb] in Hh; split_ifs Hh; inj Hh s' os a; keep IH Htr Hc.
+      + cbn in Hh. inj Hh s' os a. keep IH Htr Hc.
+      + destruct d as [|v|e|].
+        1, 3, 4: cbn in Hh; inj Hh s' os a; keep IH Htr Hc.
+        (* data *)
+        destruct IH as [Hlen Hout]. pose proof (i_le HI) as Hle.
+        cbn -[Nat.ltb] in Hh. destruct (tk_taken (cst c) <? max) eqn:Hlt.
+        * apply Nat.ltb_lt in Hlt. inj Hh s' os a.
+          assert (Hl : length (data_in 0 (trace c)) = tk_taken (cst c)) by lia.
+          constructor; rewrite Htr, ?data_out_app, data_in_app, ?Hc; cbn.
+          -- rewrite app_length. cbn. lia.
+          -- rewrite Hout. rewrite !firstn_all2; [reflexivity| |lia].
+             rewrite app_length. cbn. lia.
+        * apply Nat.ltb_ge in Hlt. inj Hh s' os a.
+          assert (Hl : max <= length (data_in 0 (trace c))) by lia.
+          constructor; rewrite Htr, ?data_out_app, data_in_app, ?Hc; cbn.
+          -- rewrite app_length. cbn. lia.
+          -- rewrite Hout, app_nil_r, firstn_app.
+             replace (max - length (data_in 0 (trace c))) with 0 by lia.
+             cbn. now rewrite app_nil_r.
+      + cbn in Hh. destruct d; inj Hh s' os a; keep IH Htr Hc.
+      + cbn in Hh. inj Hh s' os a. keep IH Htr Hc.
+    - destruct (enabled_ret_stack _ _ _ He) as (k & cl & rest & Hst).
+      destruct (resume o k (cst c)) as [[s' os] a] eqn:Hres.
+      pose proof (step_ret_trace p c Hlive Hst Hres) as Htr.
+      destruct (step_ret p c Hlive Hst Hres) as (Hc & _).
+      destruct k; cbn in Hres; split_ifs Hres; inj Hres s' os a; keep IH Htr Hc.
+  Qed.
+
+  (** C07 for take: at every control point the data delivered so far are the
+      first [max] of the data received so far *)
+  Theorem take_functional_sec (c : cfg o) :
+    reach p g_std c -> data_out 0 (trace c) = firstn max (data_in 0 (trace c)).
+  Proof. intros Hr. apply (t_out (tinv_reach Hr)). Qed.
+
+  (** completion: never more than [max] items; at a quiescent point after the
+      nth item the sink is over and upstream is not live any more *)
+  Theorem take_complete_sec (c : cfg o) :
+    reach p g_std c ->
+    ndata (ms c) 0 <= max /\
+    (stack c = [] -> max <= ndata (ms c) 0 ->
+     sk (ms c) 0 <> SLive /\ us (ms c) 0 <> ULive).
+  Proof.
+    intros Hr. destruct (inv_reach Hr). split; [lia|].
+    intros Hst Hn. rewrite Hst in i_phase0.
+    destruct (sk (ms c) 0), (us (ms c) 0); cbn in i_phase0; try tauto;
+      try (split; discriminate).
+    - destruct i_phase0 as (_ & _ & [[Hlt _] | [_ (v & rest & Hnil & _)]]);
+        [lia | discriminate].
+    - destruct i_phase0 as (_ & rest & Hnil & _). discriminate.
+  Qed.
+
 End TakeInv.
+
+(** no protocol violation and no panic in any reachable configuration *)
+Theorem take_safe p :
+  nsinks p = 1 -> resub p = false -> no_nest p = false -> c14 p = false ->
+  forall max, 1 <= max ->
+  forall c : cfg (take_op max), reach p g_std c -> viols (ms c) = [] /\ dead c = false.
+Proof.
+  intros H1 H2 H3 H4 max Hmax c Hr. destruct (inv_reach Hmax H1 H2 H3 H4 Hr). split; assumption.
+Qed.
+Print Assumptions take_safe.
+
+(** C07 *)
+Theorem take_functional p :
+  nsinks p = 1 -> resub p = false -> no_nest p = false -> c14 p = false ->
+  forall max, 1 <= max ->
+  forall c : cfg (take_op max), reach p g_std c ->
+  data_out 0 (trace c) = firstn max (data_in 0 (trace c)).
+Proof. intros H1 H2 H3 H4 max Hmax c Hr. exact (take_functional_sec Hmax H1 H2 H3 H4 Hr). Qed.
+Print Assumptions take_functional.
+
+Theorem take_complete p :
+  nsinks p = 1 -> resub p = false -> no_nest p = false -> c14 p = false ->
+  forall max, 1 <= max ->
+  forall c : cfg (take_op max), reach p g_std c ->
+  ndata (ms c) 0 <= max /\
+  (stack c = [] -> max <= ndata (ms c) 0 -> sk (ms c) 0 <> SLive /\ us (ms c) 0 <> ULive).
+Proof. intros H1 H2 H3 H4 max Hmax c Hr. exact (take_complete_sec Hmax H1 H2 H3 H4 Hr). Qed.
+Print Assumptions take_complete.
+
+(** a sanity check that the theorems are not vacuous: the fully nested run of
+    take(2) (every message is sent from inside the handler of the previous
+    one) is a conformant script, it ends quiescent with both items delivered,
+    the sink completed and the upstream stopped *)
+Module TakeSanity.
+  Definition p0 : mparams :=
+    {| nsinks := 1; late_ok := false; pullable := false; one_pull := false;
+       resub := false; no_nest := false; c14 := false |}.
+  Definition script : list move :=
+    [MIn (ISub 0 0); MIn (IDn 0 DH); MIn (IUp 0 UP); MIn (IDn 0 (DD (VN 1)));
+     MIn (IUp 0 UP); MIn (IDn 0 (DD (VN 2))); MIn (IUp 0 UP);
+     MRet; MRet; MRet; MRet; MRet; MRet; MRet; MRet].
+  Example script_enabled : all_enabled p0 g_std (cfg0 (take_op 2)) script = true.
+  Proof. vm_compute. reflexivity. Qed.
+  Example script_end :
+    let c := run p0 (take_op 2) script in
+    stack c = [] /\ data_out 0 (trace c) = [VN 1; VN 2] /\
+    sk (ms c) 0 = SFinished /\ us (ms c) 0 = UStopped /\ viols (ms c) = [].
+  Proof. vm_compute. repeat split; reflexivity. Qed.
+End TakeSanity.
